@@ -145,3 +145,9 @@ func keyInsideBucket(key string) bool {
 func errKeyNotInsideBucket(key string) error {
 	return gofakes3.ErrorInvalidArgument("key", key, "this backend maps keys to file paths: '.', '..' and empty path segments are not supported")
 }
+
+// isDir reports whether name exists in fs and is a directory.
+func isDir(fs afero.Fs, name string) bool {
+	info, err := fs.Stat(name)
+	return err == nil && info.IsDir()
+}
